@@ -29,14 +29,19 @@ SHAPES = [
 
 
 def spec_runs(ctx):
-    sub = {"Shapes <- QuickShapes": "Shapes <- %s" % ctx.pick("QuickShapes", "ThoroughShapes"),
-           "Cfgs <- QuickCfgs": "Cfgs <- %s" % ctx.pick("QuickCfgs", "ThoroughCfgs"),
-           "MaxCrash = 2": "MaxCrash = %d" % ctx.pick(1, 2)}
-    cfg = tracecheck._cfg("ExperimentLog_mc.cfg", sub, ctx.scratch, "explog_mc.cfg")
-    r = tlc.run("MC_ExperimentLog", cfg, ctx.scratch, workers=16, coverage=True, timeout=8 * 3600, heap="24g")
-    ctx.add_tlc("ExperimentLog_mc", r, required_actions=ACTIONS)
-    for v in r.violations:
-        ctx.violation("spec:%s" % (v["name"] or v["kind"]), "ExperimentLog.tla itself violates %s %s" % (v["kind"], v["name"]), v["trace"][:80])
+    # quick: the small shapes, two configurations, one crash.  thorough (calibrated under load): the curated shapes with two
+    # crashes (8.5 M states, ~13 min) and every canonical shape of <= 2 triples with one crash (~13 min); the full product
+    # ThoroughShapes x ThoroughCfgs x 2 crashes did not finish in 40 min and is not attempted.
+    runs = ctx.pick([("ExperimentLog_mc", "QuickShapes", "QuickCfgs", 1)],
+                    [("ExperimentLog_mc curated, 2 crashes", "C01QuickShapes", "QuickCfgs", 2),
+                     ("ExperimentLog_mc all shapes <= 2 triples, 1 crash", "ThoroughShapes", "QuickCfgs", 1)])
+    for nm, shapes, cfgs, mc in runs:
+        sub = {"Shapes <- QuickShapes": "Shapes <- %s" % shapes, "Cfgs <- QuickCfgs": "Cfgs <- %s" % cfgs, "MaxCrash = 2": "MaxCrash = %d" % mc}
+        cfg = tracecheck._cfg("ExperimentLog_mc.cfg", sub, ctx.scratch, "explog_mc.cfg")
+        r = tlc.run("MC_ExperimentLog", cfg, ctx.scratch, workers=16, coverage=True, timeout=2 * 3600, heap="24g")
+        ctx.add_tlc(nm, r, required_actions=ACTIONS)
+        for v in r.violations:
+            ctx.violation("spec:%s" % (v["name"] or v["kind"]), "ExperimentLog.tla itself violates %s %s" % (v["kind"], v["name"]), v["trace"][:80])
     # guard runs: these two variants MUST violate (documents the repaired restore defect; shows the invariants bite)
     for nm, extra, expect in (("ascoded", {"AsCoded = FALSE": "AsCoded = TRUE"}, {"P3_Usable", "P4_Complete", "P1_NoDuplicate"}),
                               ("nocopy", {"NoCopy = FALSE": "NoCopy = TRUE"}, {"C03_Isolated"})):
